@@ -16,3 +16,4 @@ def check(repo, rep, tier):
     rq.rule_prefix(em, rep, 'C17.P3')
     rq.rule_query_finalised(em, rep, 'C17.P4')
     rb.rule_undo_on_all_exits(em, rep, 'C17.P5')
+    rb.rule_no_exception_capture(em, rep, 'C17.P6')
